@@ -229,6 +229,11 @@ impl ResumableSessions {
         self.records.retain(|r| r.fab_idx != fab_idx);
     }
 
+    /// Keep only the records of the fabrics the predicate accepts.
+    pub fn retain_for_fabrics(&mut self, mut keep: impl FnMut(NonZeroU8) -> bool) {
+        self.records.retain(|r| keep(r.fab_idx));
+    }
+
     /// Drop the record identified by peer identity, if any.
     pub fn remove_by_peer(&mut self, fab_idx: NonZeroU8, peer_nodeid: u64) {
         self.records
